@@ -609,7 +609,14 @@ impl Broker {
                     if self.b_inflight.iter().any(|b| b.pid == pid) {
                         return false;
                     }
-                    self.send(tr, Packet::PubRel(Ack::short(pid)));
+                    // a PUBREL may carry a reason code (0x92 is the one a broker uses for an
+                    // exchange it no longer knows); the client has to answer it all the same
+                    let ack = match pid % 3 {
+                        0 => Ack::short(pid),
+                        1 => Ack::with_reason(pid, 0x92),
+                        _ => Ack { pid, reason: Some(0x92), props: Some(vec![Prop::ReasonString("r".into())]) },
+                    };
+                    self.send(tr, Packet::PubRel(ack));
                     return true;
                 }
                 let cands: Vec<usize> = self
@@ -625,7 +632,13 @@ impl Broker {
                 let i = cands[map_index(*which, cands.len())];
                 self.b_inflight[i].state = BState::AwaitComp;
                 let pid = self.b_inflight[i].pid;
-                self.send(tr, Packet::PubRel(Ack::short(pid)));
+                let ack = match (*which >> 13) & 7 {
+                    0..=3 => Ack::short(pid),
+                    4 => Ack::with_reason(pid, 0),
+                    5 => Ack { pid, reason: Some(0), props: Some(vec![Prop::ReasonString("r".into())]) },
+                    _ => Ack::with_reason(pid, 0x92),
+                };
+                self.send(tr, Packet::PubRel(ack));
                 true
             }
             BrokerAct::PingResp => {
